@@ -133,11 +133,22 @@ func (f *FileImage) DeleteObjects(fn DescriptorSelectorFunc, opts ...DeleteOpt) 
 		}
 	}
 
-	var selected bool
+	// Select the objects to delete before modifying anything, so that a selector that fails leaves
+	// f unmodified.
+	var selected []*rawDescriptor
 
 	if err := f.withDescriptors(fn, func(d *rawDescriptor) error {
-		selected = true
+		selected = append(selected, d)
+		return nil
+	}); err != nil {
+		return fmt.Errorf("%w", err)
+	}
 
+	if len(selected) == 0 {
+		return fmt.Errorf("%w", ErrObjectNotFound)
+	}
+
+	for _, d := range selected {
 		if do.zero {
 			if err := f.zero(d); err != nil {
 				return fmt.Errorf("%w", err)
@@ -155,14 +166,6 @@ func (f *FileImage) DeleteObjects(fn DescriptorSelectorFunc, opts ...DeleteOpt) 
 
 		// Reset rawDescripter with empty struct
 		*d = rawDescriptor{}
-
-		return nil
-	}); err != nil {
-		return fmt.Errorf("%w", err)
-	}
-
-	if !selected {
-		return fmt.Errorf("%w", ErrObjectNotFound)
 	}
 
 	// The minimum object ID of a group may have changed, or the group may no longer exist.
